@@ -31,7 +31,7 @@ import (
 // span twice.
 
 func oracleTraceConc(h *thist) ([]vk.Violation, map[string]bool) {
-	var vs []vk.Violation
+	vs := panicViolations(h.calls())
 	cl := map[string]bool{}
 	bad := func(kind, format string, a ...any) { vs = append(vs, vk.V(kind, format, a...)) }
 	p := h.p
@@ -457,7 +457,7 @@ func TestConcTrace(t *testing.T) {
 		Property: "C15", Check: "conc_trace",
 		Rule: "trace programs: 0-8 spans started before the goroutines are released (each ended by one goroutine or by the post section), " + concRule +
 			"non-trivial = a Register/Unregister call overlapped an End call of another goroutine or >= 2 goroutine Shutdown calls, and a Start/End call was issued after a Shutdown with a live context had returned nil; distinct = distinct case encodings",
-		Quick: 1000, Thorough: 15000,
+		Quick: 800, Thorough: 10000,
 		Gen: genTraceConc, Run: runTraceConc, Known: knownTrace,
 		CaseTimeout: 30 * time.Second, Repeat: 50, ShrinkTime: 30 * time.Second,
 	})
@@ -468,7 +468,7 @@ func TestConcMetric(t *testing.T) {
 		Property: "C15", Check: "conc_metric",
 		Rule: "metric programs: " + concRule +
 			"non-trivial = at least one reader, a provider or reader Shutdown op inside a goroutine, a provider Shutdown with a live context returned nil/ErrReaderShutdown and an Add / instrument creation / Collect was issued after it; distinct = distinct case encodings",
-		Quick: 600, Thorough: 10000,
+		Quick: 500, Thorough: 6000,
 		Gen: genMetricConc, Run: runMetricConc,
 		CaseTimeout: 30 * time.Second, Repeat: 50, ShrinkTime: 30 * time.Second,
 	})
@@ -479,7 +479,7 @@ func TestConcLog(t *testing.T) {
 		Property: "C15", Check: "conc_log",
 		Rule: "log programs: " + concRule +
 			"non-trivial = at least one processor, a Shutdown op inside a goroutine, a Shutdown with a live context returned nil and an Emit was issued after it; distinct = distinct case encodings",
-		Quick: 500, Thorough: 8000,
+		Quick: 400, Thorough: 5000,
 		Gen: genLogConc, Run: runLogConc,
 		CaseTimeout: 30 * time.Second, Repeat: 50, ShrinkTime: 30 * time.Second,
 	})
